@@ -10,8 +10,9 @@
     3. invariants of the range decoder and of the probabilities
     4. dictionary: every index is in bounds, the invariant is preserved
     5. probability indices are in bounds
-    6. totality / fuel
+    6. totality / fuel; 6b. the rep-register invariant; 6c. the array accesses of the executable model are in bounds
     7. non-vacuity: concrete streams decoded by the model inside the kernel
+    8. filter chains: `lzma_validate_chain` accepts exactly the chains the format allows
   (The container level — Block/Stream/Index — is a separate part of C03, see the section comment at the end.)
 -/
 import XzVerif.Model.Lzma2
@@ -24,6 +25,9 @@ import XzVerif.Lemmas.C03Coder
 import XzVerif.Lemmas.C03Fuel
 import XzVerif.Lemmas.C03Reps
 import XzVerif.Lemmas.C03RepsStream
+import XzVerif.Lemmas.C03Chain
+import XzVerif.Lemmas.C04CheckedTop
+import XzVerif.Model.XzDecode
 
 namespace XzVerif.C03
 open XzVerif.RangeDec XzVerif.LzDict XzVerif.Lzma XzVerif.Lzma2
@@ -229,7 +233,10 @@ theorem dict_inv_preserved :
     ∧ (∀ p, PosInv p → LZ_DICT_INIT_POS ≤ p.limit → PosInv p.reset) :=
   ⟨posInv_init, fun _ h n => posInv_wrap_setLimit h n, fun _ h n hn => posInv_advance h n hn, fun _ h hl => posInv_reset h hl⟩
 
-/-- Under `PosInv`, every buffer index the dictionary functions compute is in bounds:
+/-- (Closed-formula level: GIVEN `PosInv` and `distance < full`. That every dictionary operation of a decoding run happens
+    in such a state, and that these index expressions are then inside the buffer at each call, is
+    `model_accesses_in_bounds` in section 6c.)
+    Under `PosInv`, every buffer index the dictionary functions compute is in bounds:
     * `dict_get(distance)` with `distance < full` (what `dict_is_distance_valid` checks) reads below `size`, and its
       wrapped form is used only after a wrap;
     * `dict_get0` reads `pos − 1 ≥ 0`;
@@ -256,7 +263,10 @@ theorem dict_size_relaxation (d : Nat) :
 /-! ## 5. probability indices — reused by C04 -/
 
 /-- Every index into the probability arrays that the decoder computes lies in the array (= segment of the flat model array)
-    it is meant for, for all states < 12, pos_state < 16 (any pb ≤ 4), lc + lp ≤ 4, any position and previous byte, any bittree node. -/
+    it is meant for, for all states < 12, pos_state < 16 (any pb ≤ 4), lc + lp ≤ 4, any position and previous byte, any bittree node.
+    (Closed-formula level. That the indices the EXECUTABLE `decodeSymbol` hands to `probs.getD` / `setIfInBounds` satisfy these
+    hypotheses on every input — `state < 12`, array of size `probsSize lc lp`, bit-tree nodes inside their rows — is
+    `model_accesses_in_bounds` in section 6c.) -/
 theorem prob_indices_in_bounds :
     (∀ pos pb, pb ≤ LZMA_PB_MAX → pos &&& ((1 <<< pb) - 1) < POS_STATES_MAX)
     ∧ (∀ state posState, state < STATES → posState < POS_STATES_MAX →
@@ -465,7 +475,8 @@ theorem reps_invariant_call :
     In particular: whenever the coder is in SEQ_LZMA, the chunk configuration excludes the end-of-payload marker, and unless the
     LZMA decoder is stuck for good (no symbol will ever be decoded again) `RepsOk` holds.
     With `reps_invariant_call` (inside a call), `reps_invariant` (per symbol) and `dict_indices_in_bounds` this gives: every
-    dictionary access of the model LZMA2 decoder, on ANY input, is in bounds. -/
+    dictionary access of the model LZMA2 decoder, on ANY input, is in bounds — made formal, on the executable definitions, by
+    `model_accesses_in_bounds` (section 6c). -/
 theorem reps_invariant_lzma2 (dictSize : Nat) (preset : List UInt8) (input : ByteArray) (calls : List Nat) :
     let c := calls.foldl (fun (c : Coder) cap => (c.code cap).2) (Coder.initLzma2 dictSize preset input)
     (c.s.l2.seq = .lzma → c.s.pending ≠ .stuck → RepsOk c.s)
@@ -484,6 +495,39 @@ theorem dict_inv_between_calls (p : DictPos) (h : PosW p) :
 /-- non-vacuity: the invariant of a fresh coder, and of a state in SEQ_LZMA -/
 example : L2R (Coder.initLzma2 4096 [] (ByteArray.mk #[])).s ∧ PosW (Coder.initLzma2 4096 [] (ByteArray.mk #[])).s.dp :=
   ⟨(Coder.repsInv_init 4096 [] _).2.l2r, (Coder.repsInv_init 4096 [] _).2.pos⟩
+
+/-! ## 6c. the array accesses of the EXECUTABLE model are in bounds (audit finding F-05)
+
+  Sections 4 and 5 are about closed formulas; the executable decoders (what the driver runs) index with totalised
+  accessors (`probs.getD idx 0`, `setIfInBounds`, `hist.get!` behind `if distance < hist.size … else 0`, …), which can
+  never fail. Lemmas/C04Checked.lean has the same programs with PARTIAL accessors (`a[i]'h`, `a.set i v h`) that stop
+  with a distinguished `oob` outcome where the bound is not known, and with the C-level dictionary index expressions of
+  section 4 (`getIndex`, `pos − 1`, `pos`, `back + left`, `pos + left`) and `distance < dict.full` tested at every
+  dictionary operation. The full statement and the list of what is instrumented are in Props/C04.lean
+  (`decoder_accesses_in_bounds`, `symbol_decoder_accesses_in_bounds`, proved in Lemmas/C04Checked*.lean from
+  `reps_invariant_lzma2`, `dict_inv_preserved`, the probability layout, lc + lp ≤ 4); restated here for the three
+  whole-input functions this property's correspondence runs. -/
+
+/-- On EVERY input the checked decoders (`none` = some array access out of bounds / some C-level dictionary index outside
+    the buffer) return `some` of exactly what the executable decoders return: LZMA1 for every valid lc/lp/pb (the others
+    are refused at initialisation: `raw_init_exact`), LZMA2, and any raw chain. So no totalised default is ever taken, and
+    the instrumentation changes no result. -/
+theorem model_accesses_in_bounds :
+    (∀ (props : Props), props.valid = true → ∀ (dictSize : Nat) (uncompSize : Option Nat) (allowEopm : Bool)
+        (input presetDict : List UInt8) (outCap : Nat),
+        lzmaDecodeC props dictSize uncompSize allowEopm input presetDict outCap
+          = some (lzmaDecode props dictSize uncompSize allowEopm input presetDict outCap))
+    ∧ (∀ (dictSize : Nat) (input presetDict : List UInt8) (outCap : Nat),
+        lzma2DecodeC dictSize input presetDict outCap = some (lzma2Decode dictSize input presetDict outCap))
+    ∧ (∀ (ch : Chain) (input : List UInt8) (outCap : Nat), rawDecodeC ch input outCap = some (rawDecode ch input outCap)) :=
+  ⟨fun props hv d u a i p c => lzmaDecode_checked props hv d u a i p c, fun d i p c => lzma2Decode_checked d i p c,
+   fun ch i c => rawDecode_checked ch i c⟩
+
+/-- non-vacuity: the checked decoder runs (uncompressed LZMA2 chunk; LZMA1 literal), and it does report `oob` outside the
+    invariant (a probability read before any `lzma_decoder_reset`) -/
+example : lzma2DecodeC 4096 [0x01, 0x00, 0x01, 0x41, 0x42, 0x00] = some { ret := .streamEnd, out := [0x41, 0x42], consumed := 6 } := by
+  decide +kernel
+example : ∃ s', rcBitC 0 (initLzma2 4096 [] (ByteArray.mk #[])) = .error .oob s' := ⟨_, rfl⟩
 
 /-- Initialisation is total and rejects exactly the documented cases: PROG_ERROR for lc/lp/pb outside `is_lclppb_valid`,
     OPTIONS_ERROR for LZMA1EXT flags other than LZMA_LZMA1EXT_ALLOW_EOPM; nothing else fails (allocation aside). -/
@@ -533,6 +577,58 @@ example : (rawDecode { last := .lzma1ext { lc := 3, lp := 0, pb := 2 } 4096 [] 2
 /-- the hypotheses of the invariant theorems are satisfiable -/
 example : RcNorm Rc.reset ∧ ProbInv 1024 ∧ PosInv (DictPos.init 0 0) :=
   ⟨⟨by decide, by decide⟩, by decide, posInv_init 0 0⟩
+
+/-! ## 8. filter chains (xz-file-format §3.1.5 "List of Filter Flags" / §5.3; filter_common.c `lzma_validate_chain`)
+
+  The `features[]` table the rule is read from is bridged to the source by Props/C02 `gen_features` (regenerated). -/
+
+/-- `lzma_validate_chain` (the test both `lzma_raw_decoder_init` and the Block decoder's `lzma_raw_decoder_memusage` apply)
+    accepts EXACTLY the chains the format allows (`Container.ChainValid`): 1 to 4 filters, every one a known filter, every
+    filter but the last allowed as a non-last filter (BCJ, Delta), the last one allowed as a last filter (LZMA1, LZMA1EXT,
+    LZMA2), at most three size-changing filters; it then returns the number of filters. An empty chain is the API misuse
+    LZMA_PROG_ERROR; every other rejection is LZMA_OPTIONS_ERROR. -/
+theorem filters_1_to_4 (ids : List Nat) :
+    ((∃ n, Container.validateChain ids = .ok n) ↔ Container.ChainValid ids)
+    ∧ (∀ n, Container.validateChain ids = .ok n → n = ids.length)
+    ∧ Container.validateChain [] = .error .progError
+    ∧ (∀ e, Container.validateChain ids = .error e → ids ≠ [] → e = .optionsError) :=
+  ⟨Container.validateChain_iff ids, Container.validateChain_count ids, Container.validateChain_empty,
+   fun e h hne => Container.validateChain_error ids e h hne⟩
+
+/-- the rule spelled out (this is the definition of `Container.ChainValid`) -/
+theorem chain_rule_spelled_out (ids : List Nat) :
+    Container.ChainValid ids ↔
+      (1 ≤ ids.length ∧ ids.length ≤ 4
+       ∧ (∀ id ∈ ids, (Container.findFeature id).isSome = true)
+       ∧ (∀ id ∈ ids.dropLast, Container.idNonLastOk id = true)
+       ∧ (∀ id ∈ ids.getLast?, Container.idLastOk id = true)
+       ∧ (ids.filter Container.idChangesSize).length ≤ 3) := Iff.rfl
+
+/-- In the .xz decoder model the rule is enforced per Block: a Block Header that decodes but whose chain violates the rule
+    ends the Stream decoder with LZMA_OPTIONS_ERROR right after the header (`lzma_raw_decoder_memusage() == UINT64_MAX` in
+    stream_decoder.c), whatever follows. -/
+theorem invalid_chain_rejected (E : XzDecode.Env) (fl : XzDecode.Flags) (hdr : Container.StreamFlags) (fuel : Nat)
+    (blocks : XzDecode.HashInfo) (b0 : UInt8) (rest : List UInt8) (outCap : Nat) (h : Container.BlockHeader)
+    (hb0 : b0.toNat ≠ Container.INDEX_INDICATOR) (hlen : (b0.toNat + 1) * 4 ≤ (b0 :: rest).length)
+    (hh : Container.blockHeaderDecodeWith ((b0.toNat + 1) * 4) hdr.check ((b0 :: rest).take ((b0.toNat + 1) * 4)) = .ok h)
+    (hc : ¬ Container.ChainValid (h.filters.map (·.id))) :
+    XzDecode.blocksLoop E fl hdr (fuel + 1) blocks (b0 :: rest) outCap
+      = { ret := .optionsError, out := [], consumed := (b0.toNat + 1) * 4 } := by
+  have hv : ∀ n, Container.validateChain (h.filters.map (·.id)) ≠ .ok n :=
+    fun n hn => hc ((Container.validateChain_iff _).mp ⟨n, hn⟩)
+  unfold XzDecode.blocksLoop
+  simp only [hb0, if_false]
+  rw [if_neg (by omega), hh]
+  simp only []
+  cases hvc : Container.validateChain (h.filters.map (·.id)) with
+  | error e => rfl
+  | ok n => exact absurd hvc (hv n)
+
+/-- non-vacuity: accepted and refused chains -/
+example : Container.ChainValid [Container.FILTER_X86, Container.FILTER_DELTA, Container.FILTER_ARM, Container.FILTER_LZMA2]
+    ∧ ¬ Container.ChainValid [Container.FILTER_X86, Container.FILTER_DELTA, Container.FILTER_ARM, Container.FILTER_DELTA, Container.FILTER_LZMA2]
+    ∧ ¬ Container.ChainValid [Container.FILTER_LZMA2, Container.FILTER_LZMA2] ∧ ¬ Container.ChainValid [Container.FILTER_X86] := by
+  decide
 
 /-! ## CONTAINER LEVEL (Stream / Block / Index / filter chains with delta and BCJ)
   is a separate part of C03: Props/C03Container.lean (`block_sizes_enforced`, `index_matches_blocks`, `xz_decode_sound`,
